@@ -11,6 +11,7 @@ import (
 	"fmt"
 	"os"
 	"os/exec"
+	"regexp"
 	"runtime"
 	"sort"
 	"strings"
@@ -223,6 +224,11 @@ type Summary struct {
 	Incomplete              []string
 }
 
+var numRe = regexp.MustCompile(`[0-9]+`)
+
+// normalize removes numbers (invocation indices, addresses) from a message.
+func normalize(s string) string { return numRe.ReplaceAllString(s, "N") }
+
 func firstLine(s string) string {
 	if i := strings.IndexByte(s, '\n'); i >= 0 {
 		return s[:i]
@@ -272,7 +278,17 @@ func RunPlans(r *ev.Run, scenarios []*Scenario, plans []Plan) *Summary {
 			if b := extract(out, "MCREPLAY"); b != nil {
 				json.Unmarshal(b, &errs)
 			}
-			f.Confirmed = len(errs) == 2 && errs[0] != "" && firstLine(errs[0]) == firstLine(errs[1]) && firstLine(errs[0]) == firstLine(f.Err)
+			// confirmed = both replays fail again, with the same class of failure as the
+			// original (messages may contain process-global counters such as invocation indices)
+			cls := func(e string) string {
+				if sc := byName[p.Scenario]; sc != nil && sc.Class != nil {
+					return sc.Class(e)
+				}
+				return normalize(firstLine(e))
+			}
+			f.Confirmed = len(errs) == 2 && errs[0] != "" && errs[1] != "" &&
+				!strings.HasPrefix(errs[0], "NONDETERMINISM") && !strings.HasPrefix(errs[1], "NONDETERMINISM") &&
+				cls(errs[0]) == cls(f.Err) && cls(errs[1]) == cls(f.Err)
 		}
 		mu.Lock()
 		results[i] = pr
@@ -289,7 +305,7 @@ func RunPlans(r *ev.Run, scenarios []*Scenario, plans []Plan) *Summary {
 		}
 		if pr.Error != "" {
 			sum.Machinery++
-			fmt.Fprintf(os.Stderr, "MACHINERY-ERROR: plan %s: %s\n", pr.Plan, pr.Error)
+			r.Machinery(fmt.Sprintf("plan %s: %s", pr.Plan, pr.Error))
 			continue
 		}
 		if pr.Unmanaged > 0 {
@@ -302,10 +318,10 @@ func RunPlans(r *ev.Run, scenarios []*Scenario, plans []Plan) *Summary {
 		for _, f := range pr.Failures {
 			if strings.HasPrefix(f.Err, "NONDETERMINISM") || !f.Confirmed {
 				sum.Machinery++
-				fmt.Fprintf(os.Stderr, "MACHINERY-ERROR: plan %s: unconfirmed or nondeterministic failure: %s\n", pr.Plan, firstLine(f.Err))
+				r.Machinery(fmt.Sprintf("plan %s: unconfirmed or nondeterministic failure: %s", pr.Plan, firstLine(f.Err)))
 				continue
 			}
-			class := firstLine(f.Err)
+			class := normalize(firstLine(f.Err))
 			if sc != nil && sc.Class != nil {
 				class = sc.Class(f.Err)
 			}
